@@ -110,6 +110,11 @@ func (gc *primaryGC) run(interval, timeLimit time.Duration) {
 // of storage reclaimed.
 func (gc *primaryGC) gc(ctx context.Context, lowUsePercent int64, timeLimit time.Duration) (int64, error) {
 	gc.reclaimed = 0
+	// Records named by the freelist must be on disk before it is applied;
+	// an entry for a record still in the write pool would be discarded.
+	if _, err := gc.primary.Flush(); err != nil {
+		return 0, err
+	}
 	affectedSet, err := processFreeList(ctx, gc.freeList, gc.primary.basePath, gc.primary.maxFileSize)
 	if err != nil {
 		if err == context.DeadlineExceeded {
